@@ -36,6 +36,9 @@
                                          value ranges, value tokens = split_value of the value text shifted
                                          to the value, before = end of the previous sibling (body start for
                                          the first), after = just behind the `;`.
+   C17_css_properties_ranges / C17_css_declarations_text: those name / value ranges are the layout's, and in the
+   body text they slice to the declaration names and values as written.
+   C17_select_css_text: select_item_css on the text = next_forest / prev_forest of the sheet's layout tree.
    NOT proved: that split_value on a rendered value list returns exactly the generator's tokens
    (value tokens are characterised for all strings in props/C16Css.v); declarations terminated by
    the end of the body are outside the level-B grammar (covered at Level A by C17_css_properties and
@@ -125,6 +128,21 @@ Theorem C17_select_css_text :
     if is_prev then prev_forest (render sh) (tree sh) pos else next_forest (render sh) (tree sh) pos.
 Proof. exact select_item_css_text. Qed.
 Print Assumptions C17_select_css_text.
+
+(* the name / value ranges of those properties are the ranges of the direct declarations of the body's layout,
+   shifted to the body start, and in the body text they slice to the names and values AS WRITTEN
+   (take pre = [], post = render_gap g3: the fragment get_css_section parses) *)
+Theorem C17_css_properties_ranges :
+  forall (frag : str) (from : Z) (l : list node),
+    map (fun cp => (cp_name cp, cp_value cp)) (props_spec frag from l None) = map (shift2 from) (decl_ranges l).
+Proof. exact props_spec_ranges. Qed.
+Print Assumptions C17_css_properties_ranges.
+
+Theorem C17_css_declarations_text :
+  forall (l : list item) (pre post : str),
+    map (slice2 (pre ++ render_items l ++ post)) (decl_ranges (lay_items (zlen pre) l)) = decl_texts l.
+Proof. exact decl_ranges_text. Qed.
+Print Assumptions C17_css_declarations_text.
 
 (* non-vacuity on text: the sheet  a{b:c;e{f:g;}h:i;}  of the grammar; at position 3 the outer rule with its two
    direct declarations (the nested rule's declaration is skipped, `before` of h:i is the end of the nested rule),
